@@ -5,15 +5,16 @@
 Require Import Base.
 Local Open Scope N_scope.
 
-(* one Read call of the underlying io.Reader: some bytes (possibly together with EOF: Go allows
-   returning data and io.EOF at once, the distinction is invisible here), or a failure *)
-Inductive rd_ev := Data (c : str) | Fail.
+(* one Read call of the underlying io.Reader: some bytes, the last bytes together with io.EOF (Go allows
+   returning data and the end of the stream at once: nothing is read after that), or a failure *)
+Inductive rd_ev := Data (c : str) | DataEof (c : str) | Fail.
 
 (* bytes delivered before the first failure, and whether a failure occurs *)
 Fixpoint run (sc : list rd_ev) : str * bool :=
   match sc with
   | [] => ([], false)
   | Data c :: r => let '(b, f) := run r in (c ++ b, f)
+  | DataEof c :: _ => (c, false)
   | Fail :: _ => ([], true)
   end.
 
@@ -34,6 +35,7 @@ Section Hash.
     match sc with
     | [] => (s, false)
     | Data c :: r => cid_reader r (h_update s c)
+    | DataEof c :: _ => (h_update s c, false)     (* the bytes that arrive with the end of the stream are hashed too *)
     | Fail :: _ => (s, true)
     end.
 
